@@ -29,6 +29,7 @@ var (
 	pCutMid       = simrt.NewProbe("byzantine.cut.mid.frame")
 	pLenReject    = simrt.NewProbe("declared.length.must.reject")
 	pLenAccept    = simrt.NewProbe("declared.length.must.accept")
+	pMultiConn    = simrt.NewProbe("codec.several.connections.in.one.world")
 )
 
 // refFrame is the protocol's layout: LE int32 length = 10+len(payload), id,
@@ -87,50 +88,66 @@ type triple struct {
 	payload string
 }
 
+type codecConn struct {
+	pkts []triple
+	cfg  simnet.LinkCfg
+	link *simnet.Link
+	got  []triple
+	rerr error
+}
+
 func scenarioCodec(c *harness.Ctx) {
 	tp := c.T
-	n := 1 + tp.Choose(20)
-	if tp.Bool(2, 3) {
-		n = 1 + tp.Choose(4)
+	nConn := 1 + tp.Pick(5, 2, 1)
+	if nConn > 1 {
+		pMultiConn.Hit()
 	}
-	pkts := make([]triple, n)
-	total := 0
-	for i := range pkts {
-		typ := []int32{0, 2, 3}[tp.Choose(3)]
-		if tp.Bool(1, 5) {
-			typ = id32(tp)
+	conns := make([]*codecConn, nConn)
+	for k := range conns {
+		cc := &codecConn{}
+		n := 1 + tp.Choose(20)
+		if tp.Bool(2, 3) {
+			n = 1 + tp.Choose(4)
 		}
-		pkts[i] = triple{id32(tp), typ, payload(tp)}
-		total += len(pkts[i].payload) + 14
+		total := 0
+		for i := 0; i < n; i++ {
+			typ := []int32{0, 2, 3}[tp.Choose(3)]
+			if tp.Bool(1, 5) {
+				typ = id32(tp)
+			}
+			cc.pkts = append(cc.pkts, triple{id32(tp), typ, payload(tp)})
+			total += len(cc.pkts[i].payload) + 14
+		}
+		cc.cfg = simnet.DrawCfgFor(tp, total)
+		conns[k] = cc
 	}
-	cfg := simnet.DrawCfgFor(tp, total)
-	c.Config["packets"] = n
-	c.Config["bytes"] = total
-	var link *simnet.Link
-	var got []triple
-	var rerr error
+	c.Config["connections"] = nConn
+	c.Config["packets"] = len(conns[0].pkts)
 	out, w := c.World(func(w *kernel.World) {
-		link = simnet.Pipe(w, "rcon", cfg, simnet.LinkCfg{CutAt: -1, StallAt: -1})
-		w.Go("writer", func() {
-			wc := &mcnet.RCONConn{Conn: link.A}
-			for i, p := range pkts {
-				if err := wc.WritePacket(p.id, p.typ, p.payload); err != nil {
-					c.Fail("rcon.codec", "write", "error", "WritePacket %d failed: %v", i, err)
-					return
+		for k, cc := range conns {
+			cc := cc
+			cc.link = simnet.Pipe(w, fmt.Sprintf("rcon%d", k), cc.cfg, simnet.LinkCfg{CutAt: -1, StallAt: -1})
+			w.Go(fmt.Sprintf("writer%d", k), func() {
+				wc := &mcnet.RCONConn{Conn: cc.link.A}
+				for i, p := range cc.pkts {
+					if err := wc.WritePacket(p.id, p.typ, p.payload); err != nil {
+						c.Fail("rcon.codec", "write", "error", "WritePacket %d failed: %v", i, err)
+						return
+					}
 				}
-			}
-		})
-		w.Go("reader", func() {
-			rc := &mcnet.RCONConn{Conn: link.B}
-			for range pkts {
-				id, typ, p, err := rc.ReadPacket()
-				if err != nil {
-					rerr = err
-					return
+			})
+			w.Go(fmt.Sprintf("reader%d", k), func() {
+				rc := &mcnet.RCONConn{Conn: cc.link.B}
+				for range cc.pkts {
+					id, typ, p, err := rc.ReadPacket()
+					if err != nil {
+						cc.rerr = err
+						return
+					}
+					cc.got = append(cc.got, triple{id, typ, p})
 				}
-				got = append(got, triple{id, typ, p})
-			}
-		})
+			})
+		}
 	})
 	if c.Infra != "" {
 		return
@@ -143,32 +160,37 @@ func scenarioCodec(c *harness.Ctx) {
 		c.Fail("rcon.codec", "liveness", fmt.Sprint(out), "world did not finish: %v %v", out, w.DeadlockAt)
 		return
 	}
-	if rerr != nil {
-		c.Fail("rcon.codec", "read", "error", "ReadPacket %d of %d failed on a stream of valid frames: %v (payload length %d)", len(got), n, rerr, len(pkts[len(got)].payload))
-		return
-	}
-	for i := range pkts {
-		if got[i] != pkts[i] {
-			c.Fail("rcon.codec", "read", "mismatch", "packet %d read back as id=%d type=%d len=%d, written id=%d type=%d len=%d", i, got[i].id, got[i].typ, len(got[i].payload), pkts[i].id, pkts[i].typ, len(pkts[i].payload))
+	for k, cc := range conns {
+		pkts, got, link := cc.pkts, cc.got, cc.link
+		n := len(pkts)
+		if cc.rerr != nil {
+			c.Fail("rcon.codec", "read", "error", "connection %d of %d: ReadPacket %d of %d failed on a stream of valid frames: %v (payload length %d)", k, nConn, len(got), n, cc.rerr, len(pkts[len(got)].payload))
 			return
 		}
-	}
-	var want []byte
-	for _, p := range pkts {
-		want = append(want, refFrame(p.id, p.typ, p.payload)...)
-	}
-	wire := link.TapAB()
-	c.FoldBytes(wire)
-	if !bytes.Equal(wire, want) {
-		i := 0
-		for i < len(wire) && i < len(want) && wire[i] == want[i] {
-			i++
+		for i := range pkts {
+			if got[i] != pkts[i] {
+				c.Fail("rcon.codec", "read", "mismatch", "connection %d of %d: packet %d read back as id=%d type=%d len=%d, written id=%d type=%d len=%d", k, nConn, i, got[i].id, got[i].typ, len(got[i].payload), pkts[i].id, pkts[i].typ, len(pkts[i].payload))
+				return
+			}
 		}
-		c.Fail("rcon.codec", "write", "layout", "bytes on the wire differ from the protocol layout (LE length=10+len, id, type, payload, 00 00) at offset %d (wire %d bytes, reference %d bytes)", i, len(wire), len(want))
-		return
-	}
-	if link.UnreadAB() != 0 {
-		c.Fail("rcon.codec", "read", "residual", "%d bytes left unread after reading %d frames", link.UnreadAB(), n)
+		var want []byte
+		for _, p := range pkts {
+			want = append(want, refFrame(p.id, p.typ, p.payload)...)
+		}
+		wire := link.TapAB()
+		c.FoldBytes(wire)
+		if !bytes.Equal(wire, want) {
+			i := 0
+			for i < len(wire) && i < len(want) && wire[i] == want[i] {
+				i++
+			}
+			c.Fail("rcon.codec", "write", "layout", "connection %d of %d: bytes on the wire differ from the protocol layout (LE length=10+len, id, type, payload, 00 00) at offset %d (wire %d bytes, reference %d bytes)", k, nConn, i, len(wire), len(want))
+			return
+		}
+		if link.UnreadAB() != 0 {
+			c.Fail("rcon.codec", "read", "residual", "%d bytes left unread after reading %d frames", link.UnreadAB(), n)
+			return
+		}
 	}
 }
 
@@ -255,7 +277,26 @@ func scenarioLengths(c *harness.Ctx) {
 func passwords(tp *tape.Tape) (server, client string) {
 	base := []string{"", "p", "hunter2", "PassWord", "pa\x00ss", "\xff\xfe", "a-much-longer-password-0123456789"}[tp.Choose(7)]
 	server = base
-	switch tp.Pick(4, 1, 1, 1, 1, 1, 1) {
+	switch tp.Pick(4, 1, 1, 1, 1, 1, 1, 1, 1) {
+	case 7:
+		// two characters swapped (same multiset of bytes)
+		b := []byte(server)
+		if len(b) >= 2 && b[0] != b[len(b)-1] {
+			b[0], b[len(b)-1] = b[len(b)-1], b[0]
+			client = string(b)
+		} else {
+			client = server + "y"
+		}
+	case 8:
+		// same length, an even number of bytes changed by the same mask
+		b := []byte(server)
+		if len(b) >= 2 {
+			b[0] ^= 0x20
+			b[1] ^= 0x20
+			client = string(b)
+		} else {
+			client = server + "zz"
+		}
 	case 0:
 		client = server
 	case 1:
